@@ -345,7 +345,7 @@ def x_aol_types_WriterCompositeKey_FromStrings : List String := ["if len(strings
 def x_aol_types_WriterCompositeKey_Strings : List String := ["return _", "call _.String()", "call _.String()"]
 
 /-- x/aol/types.init -/
-def x_aol_types_init : List String := ["call RegisterCodec(amino)", "call amino.Seal()"]
+def x_aol_types_init : List String := ["call RegisterCodec(amino)", "call amino.Seal()", "call RegisterCodec(authzcodec.Amino)"]
 
 /-- x/aol/types.validateCanonicalKey -/
 def x_aol_types_validateCanonicalKey : List String := ["if canonical != keyStr", "assign canonical := compkey.EncodeToString(key, GenesisKeySeparator)", "call compkey.EncodeToString(key, GenesisKeySeparator)", "return _", "call fmt.Errorf(_, keyStr, canonical)", "return nil"]
@@ -549,7 +549,7 @@ def x_did_client_crypto_NewKeyStore : List String := ["if err != nil", "assign e
 def x_did_client_crypto_aesCTRXOR : List String := ["assign block,err := aes.NewCipher(key)", "call aes.NewCipher(key)", "if err != nil", "return nil,_", "call fmt.Errorf(_, err)", "assign buf := make([]byte, len(data))", "call make([]byte, len(data))", "call len(data)", "call _.XORKeyStream(buf, data)", "call cipher.NewCTR(block, iv)", "return buf,nil"]
 
 /-- x/did/client/crypto.decryptKey -/
-def x_did_client_crypto_decryptKey : List String := ["if key.Version != version", "return nil,_", "call fmt.Errorf(_, key.Version)", "if key.Crypto.Cipher != cipherAlgorithm", "return nil,_", "call fmt.Errorf(_, key.Crypto.Cipher)", "if key.Crypto.KDF != kdf", "return nil,_", "call fmt.Errorf(_, key.Crypto.KDF)", "if key.Crypto.KDFParams.PRF != pbkdf2PRFStr", "return nil,_", "call fmt.Errorf(_, key.Crypto.KDFParams.PRF)", "assign mac,err := hex.DecodeString(key.Crypto.MAC)", "call hex.DecodeString(key.Crypto.MAC)", "if err != nil", "return nil,_", "call fmt.Errorf(_, err)", "assign iv,err := hex.DecodeString(key.Crypto.CipherParams.IV)", "call hex.DecodeString(key.Crypto.CipherParams.IV)", "if err != nil", "return nil,_", "call fmt.Errorf(_, err)", "assign cipherText,err := hex.DecodeString(key.Crypto.CipherText)", "call hex.DecodeString(key.Crypto.CipherText)", "if err != nil", "return nil,_", "call fmt.Errorf(_, err)", "assign salt,err := hex.DecodeString(key.Crypto.KDFParams.Salt)", "call hex.DecodeString(key.Crypto.KDFParams.Salt)", "if err != nil", "return nil,_", "call fmt.Errorf(_, err)", "assign dkLen := key.Crypto.KDFParams.DKLen", "if dkLen < macKeyOffset+macKeySize || dkLen > maxPBKDF2DKLen", "op +", "return nil,_", "call fmt.Errorf(_, dkLen)", "if len(iv) != aes.BlockSize", "call len(iv)", "return nil,_", "call fmt.Errorf(_, len(iv))", "call len(iv)", "assign derivedKey := pbkdf2.Key([]byte(passwd), salt, key.Crypto.KDFParams.C, dkLen, pbkdf2PRF)", "call pbkdf2.Key([]byte(passwd), salt, key.Crypto.KDFParams.C, dkLen, pbkdf2PRF)", "call ?(passwd)", "assign expectedMac,err := newSHA3Keccak256(derivedKey[macKeyOffset:macKeyOffset+macKeySize], cipherText)", "call newSHA3Keccak256(derivedKey[macKeyOffset : macKeyOffset+macKeySize], cipherText)", "op +", "if err != nil", "return nil,_", "call fmt.Errorf(_, err)", "if !bytes.Equal(expectedMac, mac)", "call bytes.Equal(expectedMac, mac)", "return nil,_", "call fmt.Errorf(_)", "return _", "call aesCTRXOR(derivedKey[:cipherKeySize], iv, cipherText)"]
+def x_did_client_crypto_decryptKey : List String := ["if key.Version != version", "return nil,_", "call fmt.Errorf(_, key.Version)", "if key.Crypto.Cipher != cipherAlgorithm", "return nil,_", "call fmt.Errorf(_, key.Crypto.Cipher)", "if key.Crypto.KDF != kdf", "return nil,_", "call fmt.Errorf(_, key.Crypto.KDF)", "if key.Crypto.KDFParams.PRF != pbkdf2PRFStr", "return nil,_", "call fmt.Errorf(_, key.Crypto.KDFParams.PRF)", "assign mac,err := hex.DecodeString(key.Crypto.MAC)", "call hex.DecodeString(key.Crypto.MAC)", "if err != nil", "return nil,_", "call fmt.Errorf(_, err)", "assign iv,err := hex.DecodeString(key.Crypto.CipherParams.IV)", "call hex.DecodeString(key.Crypto.CipherParams.IV)", "if err != nil", "return nil,_", "call fmt.Errorf(_, err)", "assign cipherText,err := hex.DecodeString(key.Crypto.CipherText)", "call hex.DecodeString(key.Crypto.CipherText)", "if err != nil", "return nil,_", "call fmt.Errorf(_, err)", "assign salt,err := hex.DecodeString(key.Crypto.KDFParams.Salt)", "call hex.DecodeString(key.Crypto.KDFParams.Salt)", "if err != nil", "return nil,_", "call fmt.Errorf(_, err)", "assign dkLen := key.Crypto.KDFParams.DKLen", "if dkLen < macKeyOffset+macKeySize || dkLen > maxPBKDF2DKLen", "op +", "return nil,_", "call fmt.Errorf(_, dkLen)", "if key.Crypto.KDFParams.C > maxPBKDF2C", "return nil,_", "call fmt.Errorf(_, key.Crypto.KDFParams.C)", "if len(iv) != aes.BlockSize", "call len(iv)", "return nil,_", "call fmt.Errorf(_, len(iv))", "call len(iv)", "assign derivedKey := pbkdf2.Key([]byte(passwd), salt, key.Crypto.KDFParams.C, dkLen, pbkdf2PRF)", "call pbkdf2.Key([]byte(passwd), salt, key.Crypto.KDFParams.C, dkLen, pbkdf2PRF)", "call ?(passwd)", "assign expectedMac,err := newSHA3Keccak256(derivedKey[macKeyOffset:macKeyOffset+macKeySize], cipherText)", "call newSHA3Keccak256(derivedKey[macKeyOffset : macKeyOffset+macKeySize], cipherText)", "op +", "if err != nil", "return nil,_", "call fmt.Errorf(_, err)", "if !bytes.Equal(expectedMac, mac)", "call bytes.Equal(expectedMac, mac)", "return nil,_", "call fmt.Errorf(_)", "return _", "call aesCTRXOR(derivedKey[:cipherKeySize], iv, cipherText)"]
 
 /-- x/did/client/crypto.encryptKey -/
 def x_did_client_crypto_encryptKey : List String := ["assign salt := make([]byte, saltBytes)", "call make([]byte, saltBytes)", "if err != nil", "assign _,err := io.ReadFull(rand.Reader, salt)", "call io.ReadFull(rand.Reader, salt)", "return _,_", "call fmt.Errorf(_, err)", "assign derivedKey := pbkdf2.Key([]byte(passwd), salt, pbkdf2C, pbkdf2DKLen, pbkdf2PRF)", "call pbkdf2.Key([]byte(passwd), salt, pbkdf2C, pbkdf2DKLen, pbkdf2PRF)", "call ?(passwd)", "assign iv := make([]byte, aes.BlockSize)", "call make([]byte, aes.BlockSize)", "if err != nil", "assign _,err := io.ReadFull(rand.Reader, iv)", "call io.ReadFull(rand.Reader, iv)", "return _,_", "call fmt.Errorf(_, err)", "assign cipherText,err := aesCTRXOR(derivedKey[:cipherKeySize], iv, key[:])", "call aesCTRXOR(derivedKey[:cipherKeySize], iv, key[:])", "if err != nil", "return _,err", "assign mac,err := newSHA3Keccak256(derivedKey[macKeyOffset:macKeyOffset+macKeySize], cipherText)", "call newSHA3Keccak256(derivedKey[macKeyOffset : macKeyOffset+macKeySize], cipherText)", "op +", "if err != nil", "return _,err", "return _,nil", "kv Version=version", "kv ID=uuid.NewRandom().String()", "call _.String()", "call uuid.NewRandom()", "kv Address=address", "kv Crypto", "kv Cipher=cipherAlgorithm", "kv CipherText=hex.EncodeToString(cipherText)", "call hex.EncodeToString(cipherText)", "kv CipherParams", "kv IV=hex.EncodeToString(iv)", "call hex.EncodeToString(iv)", "kv KDF=kdf", "kv KDFParams", "kv C=pbkdf2C", "kv DKLen=pbkdf2DKLen", "kv PRF=pbkdf2PRFStr", "kv Salt=hex.EncodeToString(salt)", "call hex.EncodeToString(salt)", "kv MAC=hex.EncodeToString(mac)", "call hex.EncodeToString(mac)"]
@@ -832,6 +832,9 @@ def x_did_types_WithVerificationMethods : List String := ["return _", "assign op
 
 /-- x/did/types.didRegex -/
 def x_did_types_didRegex : List String := ["return _", "call fmt.Sprintf(_, DIDMethod, Base58Charset)", "lit \"did:%s:[%s]{32,44}\""]
+
+/-- x/did/types.init -/
+def x_did_types_init : List String := ["call RegisterCodec(authzcodec.Amino)"]
 
 /-- x/did/types.mustGetSignBytesWithSeq -/
 def x_did_types_mustGetSignBytesWithSeq : List String := ["assign dAtA,err := signableData.Marshal()", "call signableData.Marshal()", "if err != nil", "call panic(_)", "call fmt.Sprintf(_, err.Error(), signableData)", "lit \"marshal failed: %s, signableData: %s\"", "call err.Error()", "assign dataWithSeq := _", "kv Data=dAtA", "kv Sequence=seq", "assign dAtA,err = dataWithSeq.Marshal()", "call dataWithSeq.Marshal()", "if err != nil", "call panic(_)", "call fmt.Sprintf(_, err.Error(), dataWithSeq)", "lit \"marshal failed: %s, dataWithSeq: %v\"", "call err.Error()", "return dAtA"]
